@@ -41,11 +41,65 @@ def check_C02(tier):
     return verdict(agg, tier, t0, rule, REF_ASSUME, min_eval=1000)
 
 
+GEN_ASSUME = [
+    'configurations are driven through the public API (decay0_generator / genbbsub) with a deviate tape clamped to [1e-12, 1-1e-12]',
+    'Q-values, level lists and EK are parsed from the reference Fortran text, level energies from the README appendix, published names from the resource .lis files (own parsers)',
+    'one shot may consume at most 20000 deviates (spike: mean 10-40, max < 300); exceeding it is reported as unbounded work',
+]
+
+
+def _gencheck(prop, tier, variant='fast', extra=None, tag=None):
+    build = vlib.build_ref()  # refdict.inc only (no Fortran linked)
+    b = compile_bin('gencheck', ['checks/gencheck.cc'], variant, inc=[build])
+    args = ['--prop', prop, '--seed', str(seed()), '--tier', tier, '--known', known_tsv(prop)] + (extra or [])
+    if variant == 'san':
+        args.append('--breadcrumb')
+    return run_native(b, args, NCPU, tag or prop)
+
+
+def check_C03(tier):
+    t0 = time.time()
+    agg = Agg('C03')
+    agg.add(_gencheck('C03', tier))
+    rule = ('case = (isotope, level, mode 1..20, window class) accepted by decay0_generator::initialize x N steered tapes, plus nested window chains '
+            'W0>W1>W2>W3 for toallevents monotonicity; oracle: visible energy vs Q (reference table) and README level energy, window membership, '
+            'toallevents>=1; non-trivial & distinct = distinct (configuration, window class, cascade signature, tail class of consumed deviates)')
+    return verdict(agg, tier, t0, rule, GEN_ASSUME + ['tolerance 3 keV on the energy budget (tabulated-energy rounding), 1e-6 MeV on window bounds (stored as float)',
+                                                     'for Bi214/Pb214/Po218/Rn222 only the primary leptons/X-rays are counted (the follow-up alpha chain is not part of the 2b budget)',
+                                                     'gA modes 21-24 are exercised in C14 (synthetic data set), not here'], min_eval=1000)
+
+
+def check_C04(tier):
+    t0 = time.time()
+    agg = Agg('C04')
+    agg.add(_gencheck('C04', tier))
+    rule = ('case = (one of the 69 background names | accepted DBD configuration incl. windows) x steered tape with heavy tail steering (low 10^-U(0,12), '
+            'high 1-10^-U(0,12), reference thresholds); oracle: validity predicate (1..100 particles, species, finite bounded momenta, finite non-negative '
+            'non-decreasing times, event time 0, label == requested name, <=20000 deviates); distinct = (configuration, path signature, tail class)')
+    return verdict(agg, tier, t0, rule, GEN_ASSUME, min_eval=1000)
+
+
+def check_C05(tier):
+    t0 = time.time()
+    agg = Agg('C05')
+    agg.add(_gencheck('C05', tier))
+    rule = ('(1) every published background name x N tapes: event from genbbsub(name) must be bit-identical to the composition of the nuclide\'s own public scheme '
+            'function(s) (hand-written oracle table) on the same deviates; (2) every ordered pair of names where one is a prefix of the other: the event must not equal '
+            'the concatenation of the two schemes; (3) README lists == .lis files == API sets, every published name initialises and shoots, every accepted candidate '
+            'name in {element}x{A=1..260}x{"",m,m-B-,m-EC} is published, mode tables agree; distinct = (name, path signature) + pairs + catalogue items')
+    return verdict(agg, tier, t0, rule, GEN_ASSUME[:2] + ['the name->scheme table (checks/schemes.hpp) is written from the reference dispatch and the README, not from genbbsub.cc'], min_eval=1000)
+
+
 def replay(prop, path):
     """plain re-execution of a saved failing case, bypassing every generator"""
     j = json.load(open(path)) if path.endswith('.json') else {}
     if prop in ('C01', 'C02'):
         b = compile_bin('refdiff', ['checks/refdiff.cc'], 'fast', ref=True)
+        r = subprocess.run([b, '--prop', prop, '--replay', path], env=run_env())
+        return r.returncode
+    if prop in ('C03', 'C04', 'C05'):
+        build = vlib.build_ref()
+        b = compile_bin('gencheck', ['checks/gencheck.cc'], 'fast', inc=[build])
         r = subprocess.run([b, '--prop', prop, '--replay', path], env=run_env())
         return r.returncode
     print('no replayer for', prop)
@@ -57,3 +111,4 @@ def setup_all():
     for v in ('fast', 'san'):
         vlib.build_variant(v)
     compile_bin('refdiff', ['checks/refdiff.cc'], 'fast', ref=True)
+    compile_bin('gencheck', ['checks/gencheck.cc'], 'fast', inc=[vlib.build_ref()])
